@@ -17,7 +17,8 @@ def _props(P):
     return {
         "C01": sim("TestC01", (4, 1200, 300), (16, 12000, 3000)),
         "C02": sim("TestC02", (4, 500, 300), (16, 6000, 3000)),
-        "C03": sim("TestC03", (4, 1200, 300), (16, 12000, 3000)),
+        "C03": sim("TestC03", (4, 1200, 300), (16, 12000, 3000),
+                   also=[dict(pkg="proc", test="TestC03b", quick=(200, 300), thorough=(8, 1500, 2400), env={"VERIF_NEEDS_SERVER": "1"})]),
         "C04": sim("TestC04", (4, 1200, 300), (16, 12000, 3000)),
         "C05": sim("TestC05", (4, 1200, 300), (16, 12000, 3000), regress="TestRegressC05"),
         "C06": sim("TestC06", (4, 40, 300), (16, 120, 3000), level="fault_enumeration",
@@ -27,7 +28,7 @@ def _props(P):
         "C09": sim("TestC09", (4, 1200, 300), (16, 15000, 3000)),
         "C10": sim("TestC10", (4, 1200, 300), (16, 12000, 3000)),
         "C11": sim("TestC11", (4, 300, 300), (16, 5000, 3000), regress="TestRegressC11"),
-        "C13": proc("TestC13", (4, 420), (12, 40, 3000)),
+        "C13": P("proc", "TestC13", (3, 4, 600), (12, 40, 3000), extra_env={"VERIF_NEEDS_SERVER": "1", "VERIF_SHRINK": "1ms"}),
         "C14": sim("TestC14", (4, 600, 300), (16, 10000, 3000)),
         "C15": front("TestC15", (4, 1500, 300), (8, 20000, 1200)),
         "C12": P("kernelq", "TestC12", (4, 1500, 300), (16, 6000, 1800)),
